@@ -77,6 +77,9 @@ pub const FAILING: &[(&str, &[&str])] = &[
     ("error-in-sort-comparator-in-function", &["(define (cmp-bad a b) (< (car a) b))\n(define (sort-bad x y) (+ x y (car (sort (list 3 1 2) (lambda (a b) (cmp-bad a b))))))", "(sort-bad 1 2)"]),
     ("error-in-argument-of-deep-call", &["(define (f49 a b c) (+ a b c))\n(define (g49 x) (f49 x (f49 1 2 (car x)) 3))", "(+ 1 (g49 5))"]),
     ("error-inside-dynamic-wind-in-function", &["(define (w50 a) (dynamic-wind (lambda () 0) (lambda () (+ a (car a))) (lambda () 0)))", "(list 1 2 (w50 3))"]),
+    ("error-in-callback-of-counting-transducer", &["(transduce (list 1 2 3) (mapping (lambda (x) (car x))) (into-count))"]),
+    ("error-in-callback-of-last-transducer", &["(transduce (list 1 2 3) (mapping (lambda (x) (if (= x 2) (car x) x))) (into-last))"]),
+    ("error-in-callback-of-nth-transducer", &["(transduce (list 1 2 3) (mapping (lambda (x) (if (= x 1) (car x) x))) (into-nth 2))"]),
     ("host-initiated-call-fails", &["(define (hc52 a b) (+ a (car b)))", "#call hc52"]),
     ("error-inside-dynamic-wind-with-counter", &["(define (w53 a) (dynamic-wind (lambda () 0) (lambda () (+ a (car a))) (lambda () (wind-out!))))", "(list 1 2 (w53 3))"]),
     ("error-inside-parameterize", &["(define (p54 a) (parameterize ((base-param 'inner)) (+ a (car a))))", "(list 1 (p54 3))"]),
